@@ -6,13 +6,16 @@ WT=/tmp/seedrun/wt; OUT=/tmp/seedrun/out
 mkdir -p /tmp/seedrun; rm -rf "$OUT"; mkdir -p "$OUT"
 git -C /repo worktree remove --force "$WT" 2>/dev/null; rm -rf "$WT"
 git -C /repo worktree add --detach "$WT" HEAD >/dev/null 2>&1 || exit 2
+# the machinery itself runs from a snapshot, so that /verif can be edited while the matrix runs
+SNAP=/tmp/seedrun/verif-snap; rm -rf "$SNAP"; mkdir -p "$SNAP"
+rsync -a --exclude .git --exclude replays --exclude evidence --exclude seeded /verif/ "$SNAP"/
 ids="$@"; [ -z "$ids" ] && ids=$(ls /verif/seeded | sort)
 : > /tmp/seedrun/matrix.txt
 for id in $ids; do
   P=${id%-*}
   if ! grep -q "\"property_id\": \"$P\"" /verif/MANIFEST.json; then echo "$id not-claimed" | tee -a /tmp/seedrun/matrix.txt; continue; fi
   if ! git -C "$WT" apply /verif/seeded/$id/patch.diff 2>/dev/null; then echo "$id patch-does-not-apply" | tee -a /tmp/seedrun/matrix.txt; continue; fi
-  res=$(cd /verif && VERIF_REPO="$WT" VERIF_OUT="$OUT" ./vcheck prop $P 2>&1 | grep -v WARN)
+  res=$(cd "$SNAP" && VERIF_REPO="$WT" VERIF_OUT="$OUT" ./vcheck prop $P 2>&1 | grep -v WARN)
   rc=$(echo "$res" | grep -c '^VIOLATION')
   und=$(echo "$res" | grep '^UNDECIDED' | head -2 | cut -c1-160 | tr '\n' ';')
   first=$(echo "$res" | grep 'failed obligation' | head -1 | sed 's/  failed obligation: //')
@@ -20,4 +23,4 @@ for id in $ids; do
   else echo "$id missed $(echo "$res" | tail -1 | cut -c1-120) $und" | tee -a /tmp/seedrun/matrix.txt; fi
   git -C "$WT" checkout -- . ; git -C "$WT" clean -fdq
 done
-git -C /repo worktree remove --force "$WT"; rm -rf "$OUT"
+git -C /repo worktree remove --force "$WT"; rm -rf "$OUT" "$SNAP"
